@@ -81,7 +81,8 @@ def judge(ctx, cases, results, codes):
         if c["mode"] == "file":
             p = r["paths"]
             ok = p["dir"]["ok"] and p["dir"]["returned_equal"] and p["dir"]["file_equal"] and (not p["missing"]["ok"]) and p["missing"]["io_error"] \
-                 and (not p["regular_file"]["ok"]) and p["regular_file"]["io_error"] and p.get("symlink_dir", {"ok": True, "file_equal": True})["ok"] and p.get("symlink_dir", {"file_equal": True})["file_equal"]
+                 and (not p["regular_file"]["ok"]) and p["regular_file"]["io_error"] and p.get("symlink_dir", {"ok": True, "file_equal": True})["ok"] and p.get("symlink_dir", {"file_equal": True})["file_equal"] \
+                 and p.get("odd_names", {"ok": True})["ok"]
             if ok: stats["file_ok"] += 1
             else: ctx.violations.append(("file clause: circuit.qasm is not byte-identical to the returned string, or a non-directory path is not an I/O error", {"case": c, "brief": b, "paths": p}))
         if code is not None:
